@@ -22,6 +22,37 @@ class Env:
     def configs(self):
         return ["default", "all-features"] if self.tier == "quick" else ["default", "all-features", "no-default-features"]
 
+    def non_additive(self):
+        """function bodies of the `default` configuration that `all-features` does not subsume:
+        bodies that exist only without a feature (`cfg(not(feature = ..))`) or whose MIR differs and
+        is not just an empty function (the feature-less `Drop::drop`).  The quick tier interprets the
+        kernels under `all-features` only when this list is empty."""
+        if not hasattr(self, "_nonadd"):
+            import json
+
+            def norm(x):
+                if isinstance(x, dict):
+                    return {k: norm(v) for k, v in x.items() if k not in ("span", "loc", "line", "file", "ty")}
+                if isinstance(x, list):
+                    return [norm(v) for v in x]
+                return x
+            out = []
+            fa, fd = self.fb("all-features"), self.fb("default")
+            for cr in fd.workspace():
+                ca = fa.crates.get(cr.name)
+                pa = {b["path"]: b for b in ca.bodies} if ca else {}
+                for b in cr.bodies:
+                    a = pa.get(b["path"])
+                    if a is not None and json.dumps(norm(a["blocks"]), sort_keys=True) == json.dumps(norm(b["blocks"]), sort_keys=True):
+                        continue
+                    calls = sum(1 for bb in b["blocks"] if bb["term"]["k"] == "call")
+                    stmts = sum(len(bb["stmts"]) for bb in b["blocks"])
+                    if a is not None and calls == 0 and stmts <= 1:
+                        continue
+                    out.append("%s::%s" % (cr.name, b["path"]))
+            self._nonadd = out
+        return self._nonadd
+
 
 def _all_configs(env, f):
     """run f(fb, tag) for every configuration of the tier; obligations of the non-default
@@ -40,10 +71,13 @@ def retag(rep, start, tag):
 
 
 def per_config(rep, env, fn, light=False):
-    """term-level (heavy) rules: `all-features` configuration in the quick tier (features are
-    additive, so it is the superset of the code any configuration compiles), every configuration
+    """term-level (heavy) rules: `all-features` configuration in the quick tier when it subsumes the
+    `default` configuration (checked on the MIR: Env.non_additive), else both; every configuration
     in the thorough tier.  Item-level (light) rules: every configuration of the tier."""
     cfgs = env.configs() if (light or env.tier == "thorough") else ["all-features"]
+    if not light and env.tier == "quick" and env.non_additive():
+        # code compiled only WITHOUT a feature: `all-features` is not a superset, interpret both
+        cfgs = ["default", "all-features"]
     env.used = sorted(set(getattr(env, "used", [])) | set(cfgs))
     for c in cfgs:
         start = len(rep.obls)
@@ -212,14 +246,17 @@ def c09(rep, env):
 
 def c10(rep, env):
     def f(fb):
-        only(rep, lambda r: SM.check_ctr_remaining(r, fb), pre("pos."))
-        only(rep, lambda r: SM.check_ctr_core(r, fb), pre("pos."))
+        # "positions anywhere in [0, keystream end)": the end of the keystream (remaining blocks)
+        # must stay where the block counter has not wrapped, else the position is misreported
+        only(rep, lambda r: SM.check_ctr_remaining(r, fb), pre("pos.", "rem."))
+        only(rep, lambda r: SM.check_ctr_core(r, fb), pre("pos.", "rem."))
         only(rep, lambda r: SM.check_ctr_layout(r, fb), pre("ctr.layout", "ctr.next.advance", "ctr.next.nonce-kept"))
         only(rep, lambda r: SM.check_ctr_backend(r, fb), pre("ctr.ks.advance", "par.closed-form.state"))
-        only(rep, lambda r: SM.check_belt(r, fb, parts=("pos", "def", "par")), pre("pos.", "belt.ks.advance", "belt.ks.block", "par.closed-form.state"))
+        only(rep, lambda r: SM.check_belt(r, fb, parts=("pos", "def", "par", "rem")), pre("pos.", "rem.", "belt.ks.advance", "belt.ks.block", "par.closed-form.state"))
         # a clone must report (and seek relative to) the same position as the original
         IR.check_clone_bodies(rep, fb, crates={"ctr", "belt_ctr"})
         SM.check_ctr_aliases(rep, fb)
+        MI.check_cfg_coverage(rep, fb)
     per_config(rep, env, f)
 
 
@@ -235,6 +272,7 @@ def c11(rep, env):
         # a clone that forgets how many blocks were used would wrap silently
         IR.check_clone_bodies(rep, fb, crates={"ctr", "belt_ctr"})
         SM.check_ctr_aliases(rep, fb)
+        MI.check_cfg_coverage(rep, fb)
     per_config(rep, env, f)
 
 
@@ -314,6 +352,7 @@ def c16(rep, env):
         IR.check_outgoing_calls(rep, fb)
         IR.check_clone_bodies(rep, fb)
     per_config(rep, env, f, light=True)
+    MI.check_cfg_coverage(rep, env.fb("default"))
     IR.run_controls(rep, "own.")
 
 
@@ -323,6 +362,7 @@ def c17(rep, env):
         IR.check_wrapper_debug(rep, fb)
     per_config(rep, env, f, light=True)
     IR.check_zeroize(rep, env.fb("all-features"))
+    MI.check_cfg_coverage(rep, env.fb("default"))
     IR.run_controls(rep, "leak.")
 
 
@@ -351,3 +391,5 @@ REGISTRY = {
 }
 for _k, _v in REGISTRY.items():
     _v.setdefault("explanation", PROOF_NOTE)
+    # 31 source files on the pinned tree; files may be merged by a refactor
+    _v["floors"].setdefault("cfg.analysed", 20)
